@@ -157,7 +157,7 @@ func isKeyLocksMap(ev *pw.Event) bool {
 // lookup returns the election lookup of a path (nil for pre-election exits).
 func (fo *FO) lookup(p *pw.Path) *pw.Event {
 	for _, ev := range p.Events {
-		if ev.Kind == pw.EvMapLookup && isKeyLocksMap(ev) {
+		if ev.Kind == pw.EvMapLookup && isKeyLocksMap(ev) && (ev.Frame == nil || !ev.Frame.Deferred) {
 			return ev
 		}
 	}
@@ -178,6 +178,10 @@ func (fo *FO) classify(p *pw.Path) (*foClass, error) {
 	for i, ev := range p.Events {
 		if ev.Kind == pw.EvMapLookup && isKeyLocksMap(ev) {
 			if cl.lookup != nil {
+				// a later plain (non comma-ok) lookup is a guard of a release helper ("is it still my entry?"), not an election
+				if len(ev.Results) < 2 {
+					continue
+				}
 				return nil, fmt.Errorf("two keyLocks lookups on one path")
 			}
 			cl.lookup, cl.lookupI = ev, i
